@@ -109,6 +109,10 @@ pub(crate) mod verif_sign {
     fn c13_signer_no_update_middle() {
         signer_body_opt::<3, 1, 5>([[1], [0], [4]], true);
     }
+    //@ harness c13_signer_capacity_crossing tier=quick shape="1 message of 1025 bytes fed as 1024 + 1 (crosses the signer's initial buffer capacity); length and first 160 bytes compared" timeout=600
+    c13_signer!(c13_signer_capacity_crossing, 1, 2, 1025, [[1024, 1]], 6);
+    //@ harness c13_signer_capacity_crossing_second tier=thorough shape="2 messages: 1000 + 30, then 4 (first crosses the capacity)" required=no
+    c13_signer!(c13_signer_capacity_crossing_second, 2, 2, 1034, [[1000, 30], [4, 0]], 6);
     //@ harness c13_signer_long_chunks tier=thorough shape="2 messages: 36+72 (delegation-sized), 32+100 (response-sized)"
     c13_signer!(c13_signer_long_chunks, 2, 2, 240, [[36, 72], [32, 100]], 6);
 
